@@ -91,15 +91,17 @@ PLANS = {
     },
     "C09": {
         "quick": [ex("pratt", "pratt", 1, 4, alphabet=["a", "+", "*", "-", "!", "^"], modes=["E"], invariants=DEFAULT_INVARIANTS + ["PrattFlatten"]),
+                  ex("prattP5", "prattP", 1, 5, alphabet=["a", "+", "*", "-"], modes=["E"], invariants=DEFAULT_INVARIANTS + ["PrattFlatten"]),
                   rec("prattR", "pratt", 2500, 6, 9)],
         "thorough": [ex("pratt", "pratt", 1, 5, alphabet=["a", "+", "*", "-", "!", "^"], invariants=DEFAULT_INVARIANTS + ["PrattFlatten"]),
+                     ex("prattP6", "prattP", 1, 6, alphabet=["a", "+", "*", "-"], invariants=DEFAULT_INVARIANTS + ["PrattFlatten"]),
                      rec("prattR", "pratt", 40000, 6, 12)],
     },
     "C10": {
         "quick": [ex("peg2k", "peg", 2, 2, kinds=ALL_KINDS, modes=["E"]), ex("rep2k", "rep", 2, 3, alphabet=["a", ","], kinds=["stream", "mapped", "io"], modes=["E"]),
                   ex("rcv2k", "rcv", 2, 3, kinds=["bstream", "mstream", "wctx"], modes=["E"]),
                   ex("seek4", "seek", 4, 4, kinds=["io", "bstream"], modes=["E"]),
-                  ex("spn2g", "spn", 2, 3, alphabet=["a", "G", "U"], kinds=["graph", "str"], modes=["E"]),
+                  ex("spn2g", "spn", 2, 3, alphabet=["a", "G", "U", "D"], kinds=["graph"], modes=["E"]),
                   ex("spng3k", "spng", 3, 3, kinds=["mstream", "wctx", "mapspan"], modes=["E"]),
                   ex("gapTk", "gapT", 1, 3, kinds=["mapped", "mstream", "wctx", "io"], modes=["E"]),
                   ex("spni3", "spni", 3, 3, kinds=["iter"], modes=["E"]), ex("gapTi", "gapTi", 1, 3, kinds=["iter"], modes=["E"]),
@@ -107,7 +109,7 @@ PLANS = {
         "thorough": [ex("peg2k", "peg", 2, 3, kinds=ALL_KINDS), ex("rep2k", "rep", 2, 4, alphabet=["a", ","], kinds=ALL_KINDS, modes=["E"]),
                      ex("rcv3k", "rcv", 3, 3, kinds=["bstream", "mstream", "wctx", "io"], modes=["E"]),
                      ex("seek5", "seek", 5, 4, kinds=["io", "bstream", "mstream", "stream", "mapped"], modes=["E"]),
-                     ex("spn3g", "spn", 3, 3, alphabet=["a", "G", "U", "E"], kinds=["graph", "str"]),
+                     ex("spn3g", "spn", 3, 3, alphabet=["a", "G", "U", "D", "E"], kinds=["graph", "str"]),
                      ex("spng4k", "spng", 4, 3, kinds=["mapped", "mstream", "wctx", "mapspan"], modes=["E"]),
                      ex("gapTk", "gapT", 1, 4, kinds=ALL_KINDS),
                      ex("spni4", "spni", 4, 3, kinds=["iter", "mapped"], modes=["E"]), ex("gapTi", "gapTi", 1, 4, kinds=["iter"]),
